@@ -127,7 +127,7 @@ class Grammars:
         raise D.GrammarError("no lexeme for terminal %s" % t)
 
 
-def gen_sentences(gr, rules, rng, n):
+def gen_sentences(gr, rules, rng, n, budgets=(5, 10, 20, 30, 40), maxlen=70):
     gen = D.SentenceGen(rules, rng, gr.lex_lit, gr.lex_term)
     out = []
     for nt, r in rules.items():
@@ -138,8 +138,8 @@ def gen_sentences(gr, rules, rng, n):
                 if len(s) <= 60:
                     out.append(s)
     for _ in range(n):
-        s = gen.gen("SourceFile", rng.choice([5, 10, 20, 30, 40]))
-        if len(s) <= 70:
+        s = gen.gen("SourceFile", rng.choice(list(budgets)))
+        if len(s) <= maxlen:
             out.append(s)
     return out, gen.used
 
@@ -319,7 +319,8 @@ def run(ctx):
     rng = ctx.rng
     n = 500 if ctx.quick else 3000
     d = gr.d
-    s_must, used_must = gen_sentences(gr, d["must"], rng, n)
+    bud = (5, 10, 20, 30, 40) if ctx.quick else (5, 10, 20, 30, 40, 60, 90)
+    s_must, used_must = gen_sentences(gr, d["must"], rng, n, bud, 70 if ctx.quick else 160)
     s_doc, used_doc = gen_sentences(gr, d["rules"], rng, n // 3)
     s_sound, _ = gen_sentences(gr, d["sound"], rng, n // 3)
     sents = s_must + s_doc + s_sound
@@ -537,6 +538,11 @@ def run(ctx):
     except vlib.BuildError as ex:
         fails.append({"kind": "model-build", "file": "extraction unit syntax", "error": str(ex)[-800:]})
     alts_total = sum(len(r[1]) if r[0] == "alt" else 1 for r in d["must"].values())
+    all_alts = [(nt, i) for nt, r in sorted(d["must"].items()) for i in range(len(r[1]) if r[0] == "alt" else 1)]
+    per_alt = {}
+    for (s_, t_), r_ in zip(cases, res):
+        pass
+    unexercised = ["%s/%d" % a for a in all_alts if a not in used_must]
     ctx.cov.update({
         "evaluations": len(cases) + len(acc_texts) + len(ctexts),
         "distinct_nontrivial": len([k for k in distinct if len(k) >= 3]),
@@ -552,6 +558,10 @@ def run(ctx):
         "non_sentences": nneg,
         "doc_alternatives_total": alts_total,
         "doc_alternatives_exercised": len(used_must),
+        "doc_alternatives_unexercised": unexercised,
+        "doc_alternatives_per_nonterminal": {nt: "%d/%d" % (len([a for a in all_alts if a[0] == nt and a in used_must]),
+                                                             len([a for a in all_alts if a[0] == nt])) for nt in sorted({a[0] for a in all_alts})},
+        "sentence_size_budgets": [5, 10, 20, 30, 40] if ctx.quick else [5, 10, 20, 30, 40, 60, 90],
         "accessor_nodes_checked": nodes_checked,
         "accessor_sentences": len(acc_texts),
         "corpus_files": len(cfiles),
